@@ -19,10 +19,11 @@ VARIABLES l,      \* the trace line being judged (0 = root)
 Trace == ndJsonDeserialize(IOEnv.VERIF_TRACE)
 Chunk == 8
 
-\* the four main styles are rendered for every case; "yml" (the YAML text under the extension .yml) and "json" (a JSON
-\* document under .json) -- both documented -- for a share of the cases
+\* the four main styles are rendered for every case; for a share of the cases also "hclf" (collection functions and
+\* no locals block at all), "hclv" (locals spread over several blocks -- redefinitions, chains -- and no function),
+\* "yml" (the YAML text under the extension .yml) and "json" (a JSON document under .json)
 MainStyles == {"hcl", "hcll", "yaml", "yamla"}
-AllStyles  == MainStyles \cup {"yml", "json"}
+AllStyles  == MainStyles \cup {"hclf", "hclv", "yml", "json"}
 \* a rendering whose outcome equals that of an earlier style is logged as [same |-> style]
 Out(row, style) == IF "same" \in DOMAIN row.out[style] THEN row.out[row.out[style].same] ELSE row.out[style]
 \* every rendering of a description of the case space is accepted by its front-end, and means what the
@@ -60,6 +61,12 @@ AmmoHcl       == AmmoOK("hcl")
 AmmoHclL      == AmmoOK("hcll")
 AmmoYaml      == AmmoOK("yaml")
 AmmoYamlA     == AmmoOK("yamla")
+AcceptedHclF  == Accepted("hclf")
+CfgHclF       == CfgOK("hclf")
+AmmoHclF      == AmmoOK("hclf")
+AcceptedHclV  == Accepted("hclv")
+CfgHclV       == CfgOK("hclv")
+AmmoHclV      == AmmoOK("hclv")
 AcceptedYml   == Accepted("yml")
 CfgYml        == CfgOK("yml")
 AmmoYml       == AmmoOK("yml")
